@@ -70,7 +70,7 @@ func (msg *MsgUpdateTotalBlocksPerYear) ValidateBasic() error {
 		return errorsmod.Wrapf(sdkerrors.ErrInvalidAddress, "invalid sender address (%s)", err)
 	}
 
-	if msg.TotalBlocksPerYear == 0 {
+	if msg.TotalBlocksPerYear == 0 || msg.TotalBlocksPerYear > 1<<63-1 {
 		return fmt.Errorf("invalid total blocks per year")
 	}
 
